@@ -134,7 +134,7 @@ fn part_entry_points_bfs(thorough: bool) -> Acc {
     docs.par_iter()
         .map(|d| {
             let mut acc = Acc::new();
-            let alpha = alphabet(d, if thorough { AlphaSize::Unions } else { AlphaSize::Singles }, 3, true);
+            let alpha = alphabet(d, AlphaSize::Singles, 3, true);
             bfs(d, &alpha, &params, &mut acc, |e, acc| {
                 let q = e.query_string();
                 let a = imp::run_with_path(&q, e.doc, e.am);
@@ -731,8 +731,19 @@ fn part_schedules(thorough: bool) -> Result<Acc, String> {
     let bound = if thorough { 3 } else { 2 };
     let cap: u64 = if thorough { 2_000_000 } else { 200_000 };
     let hs = harnesses(thorough);
+    // harnesses are explored concurrently: each one's jobs have a long sequential tail (the first subtree holds about
+    // half of the schedules), overlapping them keeps the cores busy
+    let per: Vec<Result<Acc, String>> = hs.par_iter().enumerate().map(|(hi, h)| explore_harness(hi, h, bound, cap)).collect();
     let mut total = Acc::new();
-    for (hi, h) in hs.iter().enumerate() {
+    for r in per {
+        total = total.merge(r?);
+    }
+    Ok(total)
+}
+
+fn explore_harness(hi: usize, h: &Harness, bound: usize, cap: u64) -> Result<Acc, String> {
+    let mut total = Acc::new();
+    {
         let mut found = false;
         for b in 0..=bound {
             let root = run_sched_child(hi, b, None, None, cap)?;
@@ -800,9 +811,7 @@ fn part_schedules(thorough: bool) -> Result<Acc, String> {
                 break;
             }
         }
-        if found {
-            continue;
-        }
+        let _ = found;
     }
     Ok(total)
 }
